@@ -41,6 +41,9 @@ func genPolicy(s *Stream, p *AttemptPlan) {
 		p.IdleAt = s.N(30)
 		p.IdleFor = []time.Duration{11 * time.Minute, time.Hour, 25 * time.Hour, 40 * time.Second}[s.N(4)]
 	}
+	if s.Chance(1, 8) {
+		p.SlowHandler = []time.Duration{35 * time.Second, 65 * time.Second, 10 * time.Minute}[s.N(3)]
+	}
 	p.OpenCk = s.Weighted(3, 2, 1)
 	p.SetErrVariant = s.Weighted(2, 1, 1)
 }
@@ -91,8 +94,8 @@ func genScenarioC01(t *Tape, thorough bool) *Scenario {
 	o := baseOpts()
 	o.Prof.AllowJSON = true
 	o.TableIDReuse = t.S("cfg").Chance(1, 3)
+	o.WideTables = true
 	if thorough {
-		o.WideTables = true
 		o.MaxUnits = 12
 		o.MaxCols = 12
 		o.MaxRows = 5
@@ -586,6 +589,7 @@ func packetCount(h *History, start Pos) int {
 }
 
 type faultEmphasis struct {
+	Bystander    bool // C07: some runs have a second Streamer with the same server id in the process
 	EnvPanic     bool // C05: some failing callbacks panic instead of returning an error
 	StartHigh    bool // C05: start offsets with bits above 2^32 set
 	GateAccepted bool // C17: some injected packets are bare headers that pass the validity gate
@@ -606,6 +610,9 @@ func genFaultScenario(t *Tape, o *GenOpts, em faultEmphasis) *Scenario {
 	sc.Scribble = cs.Chance(1, 6) // a consumer that overwrites what it accepted, also across attempts
 	if em.Timeout {
 		sc.ReadTimeout = cs.Chance(1, 3)
+	}
+	if em.Bystander && cs.Chance(1, 6) {
+		sc.Bystander = true
 	}
 	if em.StartHigh && cs.Chance(1, 16) {
 		sc.StartHigh = []int64{1 << 32, 3 << 32, 1 << 40, 1 << 62}[cs.N(4)]
